@@ -136,6 +136,13 @@ def get(name):
     e = _get(name)
     _lookups[0] += 1
     if CHURN and _lookups[0] % CHURN == 0:
+        k = _lookups[0] // CHURN
+        if k % 5 == 3:
+            import copy
+            return (e[0], copy.deepcopy(e[1]), e[2], e[3])      # a copy of the model is that model
+        if k % 5 == 4:
+            import pickle
+            return (e[0], pickle.loads(pickle.dumps(e[1])), e[2], e[3])
         return (e[0], _fresh(name, e[3]), e[2], e[3])
     return e
 
